@@ -57,7 +57,7 @@ def content(rng, size):
     return rng.randbytes(size)
 
 
-def gen_spec(rng, depth=3, budget=None):
+def gen_spec(rng, depth=5, budget=None):
     """Tree spec: name -> ('f', bytes) | ('d', spec) | ('l', target_text)."""
     budget = budget or [rng.randint(3, 18)]
     out = {}
@@ -65,7 +65,7 @@ def gen_spec(rng, depth=3, budget=None):
         if budget[0] <= 0:
             break
         budget[0] -= 1
-        name = rng.choice(["a", "b", "c", "d.txt", "e", "Z", "x y", "ü"]) + rng.choice(["", "1", "2"])
+        name = rng.choice(["a", "b", "c", "d.txt", "e", "Z", "x y", "ü", "a.b", ".hidden", "ab"]) + rng.choice(["", "1", "2"])
         r = rng.random()
         if r < 0.3 and depth > 0:
             out[name] = ("d", gen_spec(rng, depth - 1, budget) if rng.random() < 0.8 else {})
@@ -95,7 +95,9 @@ def add_links(rng, spec):
         r = rng.random()
         where = rng.choice([""] + [d + "/" for d in ds])
         up = "../" * where.count("/")
-        if r < 0.4 and fs:
+        if r < 0.1 and fs:
+            tgt = "ABS:" + rng.choice(fs + ds)  # absolute path that stays inside the directory
+        elif r < 0.4 and fs:
             tgt = up + rng.choice(fs)
         elif r < 0.6 and ds:
             tgt = up + rng.choice(ds)
@@ -138,7 +140,7 @@ def materialise(spec, links, base: Path, rng=None):
     if rng:
         rng.shuffle(ls)
     for name, tgt in ls:
-        (base / name).symlink_to(tgt)
+        (base / name).symlink_to(str(base.resolve() / tgt[4:]) if tgt.startswith("ABS:") else tgt)
 
 
 def one_tree(rng, acc, d):
@@ -168,7 +170,7 @@ def one_tree(rng, acc, d):
     for edit in ("byte", "rename", "add", "remove", "file2dir", "dir2file", "retarget-same-content", "link2file", "file2link", "emptydir"):
         C = d / "C"
         shutil.rmtree(C, ignore_errors=True)
-        shutil.copytree(A, C, symlinks=True)
+        materialise(spec, links, C)  # (not copytree: absolute in-directory links must point into C)
         ok = apply_edit(rng, edit, C, fs, ds, links, spec)
         if not ok:
             continue
@@ -314,6 +316,26 @@ def escape_cases(rng, acc, d):
                           f"symlink leading outside the directory ({name} -> {tgt}) accepted: {t}", {"kind": "escape", "name": name})
         except ValueError:
             pass
+    # siblings whose NAME extends / is a prefix of the directory's name (string-prefix tests are not path containment)
+    for sib in ("data_v2", "data2", "data.bak", "dat"):
+        (d / "pref").mkdir(exist_ok=True)
+        base = d / "pref" / "data"
+        shutil.rmtree(d / "pref", ignore_errors=True)
+        (base / "sub").mkdir(parents=True)
+        (base / "f").write_bytes(b"x")
+        (d / "pref" / sib).mkdir()
+        (d / "pref" / sib / "g.txt").write_bytes(b"g")
+        for where, tgt in (("sub/lnk", f"../../{sib}/g.txt"), ("lnk2", str(d / "pref" / sib / "g.txt")), ("lnk3", f"../{sib}")):
+            (base / where).symlink_to(tgt)
+            acc.case(["escape-sibling", sib, where], nontrivial=True)
+            acc.count("escape_checks")
+            try:
+                t = dir_hashsums(base)
+                acc.violation("escape-accepted:prefix-sibling", f"symlink {where} -> {tgt} leads outside {base.name}/ (sibling {sib}) but was accepted: {t}",
+                              {"kind": "escape", "name": f"sibling-{sib}"})
+            except ValueError:
+                pass
+            (base / where).unlink()
     # control: link with '..' that stays inside is accepted
     base = d / "in-ok"
     (base / "sub").mkdir(parents=True)
